@@ -459,6 +459,14 @@ def _first_diff(a, b, path=""):
     return None if a == b else (path or ".")
 
 
+def _spool(rec):
+    """checks that fork worker processes (C12, C19) mirror inside them: what is found goes through a file"""
+    path = MIRROR.get("spool")
+    if path:
+        with open(path, "a", encoding="utf-8") as f:
+            f.write(json.dumps(rec) + "\n")
+
+
 def _mirror(cases, results, workdir, label, case_timeout, stack_mib, extra_env):
     stride = max(1, int(MIRROR.get("stride", 5)))
     offset = int(MIRROR.get("offset", 0)) % stride
@@ -471,7 +479,12 @@ def _mirror(cases, results, workdir, label, case_timeout, stack_mib, extra_env):
     except Inconclusive:
         MIRROR_STATS["release_build_unavailable"] = True
         return
-    replicas = [("rel", "rel", extra_env)]
+    replicas = [("rel", "rel", extra_env)] if MIRROR.get("release", True) else []
+    if MIRROR.get("alone", True):
+        # the same DEBUG build, every mirrored case ALONE in a process of its own: the shards of the judged run are long-lived
+        # (one worker thread serves hundreds of cases), so whatever the code under test keeps per thread or per process - a
+        # memo, a counter, a pool, an id that is reused - has a history there and none here; the records must be identical
+        replicas.append(("alone", "dbg", extra_env))
     if MIRROR.get("environment"):
         # the same DEBUG build in another process environment: a time zone with a 30-minute daylight-saving shift and an
         # odd base offset, a locale with unusual case mapping, another working directory. Nothing these checks generate reads
@@ -481,9 +494,19 @@ def _mirror(cases, results, workdir, label, case_timeout, stack_mib, extra_env):
         env2.update(ALT_ENV)
         replicas.append(("env", "dbg", env2))
     for tag, variant, env in replicas:
-        again, _ = run_cases(variant, [cases[k] for k in idx], workdir, label=label + "-" + tag + "-mirror", case_timeout=max(case_timeout, 60.0), stack_mib=stack_mib, extra_env=env)
-        MIRROR_STATS["cases_mirrored" if tag == "rel" else "cases_mirrored_in_another_environment"] = MIRROR_STATS.get("cases_mirrored" if tag == "rel" else "cases_mirrored_in_another_environment", 0) + len(idx)
-        for k, r in zip(idx, again):
+        sel = idx
+        if tag == "alone":
+            sel = idx[: int(MIRROR.get("max_alone", 160))]
+            again = []
+            for a in range(0, len(sel), NCPU):
+                part = sel[a : a + NCPU]
+                rs, _ = run_cases(variant, [cases[k] for k in part], workdir, label=label + "-alone-mirror", nshards=len(part), case_timeout=max(case_timeout, 60.0), stack_mib=stack_mib, extra_env=env)
+                again += rs
+        else:
+            again, _ = run_cases(variant, [cases[k] for k in sel], workdir, label=label + "-" + tag + "-mirror", case_timeout=max(case_timeout, 60.0), stack_mib=stack_mib, extra_env=env)
+        key = {"rel": "cases_mirrored", "env": "cases_mirrored_in_another_environment", "alone": "cases_mirrored_alone_in_a_fresh_process"}[tag]
+        MIRROR_STATS[key] = MIRROR_STATS.get(key, 0) + len(sel)
+        for k, r in zip(sel, again):
             if not isinstance(r, dict) or _has_fault(r):
                 MIRROR_STATS["skipped_crash_or_panic"] += 1
                 continue
@@ -494,6 +517,8 @@ def _mirror(cases, results, workdir, label, case_timeout, stack_mib, extra_env):
             d = _first_diff(a, b)
             if d and len(MIRROR_DIFFS) < 200:
                 MIRROR_DIFFS.append((label, cases[k], a, b, d, tag))
+                _spool({"diff": [label, cases[k], a, b, d, tag]})
+        _spool({"stats": {key: len(sel)}})
 
 
 def run_single(variant, case, workdir, label="single", case_timeout=300.0, stack_mib=None):
